@@ -45,7 +45,7 @@ type Cfg struct {
 	// rule is replaced by the same rule with a long one (or cleared and loaded again). If the node is still ejected
 	// after the load, it is still ejected when the interval of the REPLACED rule has passed.
 	// [interval before s, interval after s, a request between the load and the old deadline (0/1), how: 0 LoadRules, 1 LoadRuleOfResource, 2 ClearRules+LoadRules,
-	// 3 ClearRules, then the very same rule object is loaded again and the node fails again shortly before the old timer is due, 4 the same with ClearRuleOfResource, then LoadRules]
+	// 3 ClearRules, then the very same rule object is loaded again and the node fails again shortly before the old timer is due, 4 the same with ClearRuleOfResource, then LoadRules, 5 the recycler consumes its queue only after ClearRules (timer armed while there is no rule), then LoadRules]
 	Recycle []int64 `json:"recycle,omitempty"`
 }
 
@@ -99,7 +99,7 @@ func (P) Gen(rng *sim.Rng, tier string) *harness.Case {
 		cfg.Verdicts = []int64{int64(rng.Range(1, int(d)-1)), d + int64(rng.Range(0, 500)), int64(rng.Range(2, 10)), d, int64(rng.Intn(2))}
 	}
 	if len(cfg.Budget) == 0 && len(cfg.Verdicts) == 0 && rng.Chance(0.02) {
-		cfg.Recycle = []int64{int64(rng.Range(1, 5)), int64([]int{30, 600, 3600}[rng.Intn(3)]), int64(rng.Intn(2)), int64(rng.Intn(5))}
+		cfg.Recycle = []int64{int64(rng.Range(1, 5)), int64([]int{30, 600, 3600}[rng.Intn(3)]), int64(rng.Intn(2)), int64(rng.Intn(6))}
 	}
 	n := rng.Range(6, 24)
 	for i := 0; i < n; i++ {
@@ -1069,7 +1069,7 @@ func execVerdicts(cfg *Cfg, o *harness.Outcome, env *harness.Env) {
 // execRecycle: see Cfg.Recycle.
 func execRecycle(cfg *Cfg, o *harness.Outcome, env *harness.Env) {
 	a, b, between, how := cfg.Recycle[0], cfg.Recycle[1], cfg.Recycle[2] == 1, cfg.Recycle[3]
-	if a <= 0 || a > 10 || b <= a+1 || b > 100000 || how < 0 || how > 4 {
+	if a <= 0 || a > 10 || b <= a+1 || b > 100000 || how < 0 || how > 5 {
 		return
 	}
 	const resName, bad, good = "res-0", "10.0.0.1:80", "10.0.0.2:80"
@@ -1102,6 +1102,7 @@ func execRecycle(cfg *Cfg, o *harness.Outcome, env *harness.Env) {
 		})
 	}
 	// request: one request served by node addr; returns the nodes reported for filtering on entry
+	noDrain := false // the recycler / retryer workers do not get to run after the request (they are behind)
 	request := func(addr string, fail bool) (filter []string) {
 		harness.Call(o, "C13.probe-panicked", 0, func() {
 			e, _ := sentinel.Entry(resName, sentinel.WithSlotChain(sc))
@@ -1115,7 +1116,9 @@ func execRecycle(cfg *Cfg, o *harness.Outcome, env *harness.Env) {
 			}
 			env.Clock.AdvanceMs(1)
 			e.Exit()
-			drain()
+			if !noDrain {
+				drain()
+			}
 		})
 		return
 	}
@@ -1138,10 +1141,38 @@ func execRecycle(cfg *Cfg, o *harness.Outcome, env *harness.Env) {
 	request(bad, true)
 	request(bad, true)
 	// this request finds the node ejected: it is handed to the recycler, which arms the timer of the rule in force
+	noDrain = how == 5
 	if f := request(good, false); o.Failed() || !has(f, bad) {
 		return
 	}
+	noDrain = false
 	t0 := env.Clock.NowMs()
+	if how == 5 {
+		// ... but the recycler is behind: it takes the node from its queue only after the rules have been cleared,
+		// and arms a timer while the resource has no rule. A rule with a long recycle interval is loaded; the node
+		// fails again and is ejected under it: it stays ejected when the interval of the rule that is gone has passed.
+		harness.Call(o, "C13.load-panicked", 0, func() { _ = outlier.ClearRules() })
+		harness.Call(o, "C13.probe-panicked", 0, drain)
+		load(b, 0)
+		request(bad, true)
+		request(bad, true)
+		if f := request(good, false); o.Failed() || !has(f, bad) {
+			return
+		}
+		t1 := env.Clock.NowMs()
+		harness.Call(o, "C13.probe-panicked", 0, func() { tq.AdvanceMs(uint64(a)*1000+500, drain) })
+		f := request(good, false)
+		if o.Failed() {
+			return
+		}
+		o.Nontrivial = true
+		o.Probe("outlier_recycle_timer_armed_while_the_resource_had_no_rule")
+		if !has(f, bad) {
+			o.Fail("C13.replaced-rule-still-decides", 0, "outlier rule (ejected for 1 h after one error, RecycleIntervalS %d): node %s was ejected and queued for the recycler, the rules were cleared, the recycler took the node from its queue and armed its timer while the resource had no rule; a rule with RecycleIntervalS %d was loaded and the node failed and was ejected under it at +%d ms - %d ms later it is back in the pool: the timer armed for the rule that is gone removed it",
+				a, bad, b, t1-t0, env.Clock.NowMs()-t1)
+		}
+		return
+	}
 	if how >= 3 {
 		// the rule is cleared and the very same object loaded again; 300 ms before the timer armed under the cleared
 		// rule is due the node fails again and is ejected and scheduled under the rule in force: it stays ejected
